@@ -42,7 +42,7 @@ theorem baseRd_valid (env : Env) (n : String) (p : Prim) (hn : n ∈ baseLeaves)
   · cases p <;> simp [baseValid] at hv
     rename_i xs
     have : List.take 6 xs = xs := by rw [List.take_of_length_le]; omega
-    simp [baseRdPrim, hv.1, this, numbers_allReal _ hv.2]
+    simp [baseRdPrim, resolve1, resolveP, hv.1, this, numbers_allReal _ hv.2]
   · simp [baseValid] at hv; simp [baseRdPrim, hv]
 
 theorem baseSem_law (env : Env) : baseSem.Law env baseOk := by
@@ -60,8 +60,8 @@ theorem baseSem_law (env : Env) : baseSem.Law env baseOk := by
 
 /-! ## derived enums: reading is the exact inverse of writing -/
 
-theorem enum_write_read (S : Schema) (v : Val) (p : Prim) (h : writeEnum S v = .ok p) :
-    readEnum S p = .ok v ∧ v = .leaf p := by
+theorem enum_write_readPrim (S : Schema) (v : Val) (p : Prim) (h : writeEnum S v = .ok p) :
+    readEnumPrim S p = .ok v ∧ v = .leaf p ∧ p.isRef = false := by
   simp only [writeEnum] at h
   cases hv : enumValid S v with
   | false => simp [hv] at h
@@ -70,11 +70,13 @@ theorem enum_write_read (S : Schema) (v : Val) (p : Prim) (h : writeEnum S v = .
     cases v with
     | leaf q =>
       simp at h; subst h
-      refine ⟨?_, rfl⟩
+      refine ⟨?_, rfl, ?_⟩
+      rotate_left
+      · cases q <;> simp [enumValid] at hv <;> rfl
       cases q <;> simp [enumValid] at hv
       · rename_i i
         obtain ⟨hk, hf⟩ := hv
-        simp only [readEnum]
+        simp only [readEnumPrim]
         have : S.kind = .intEnum := by simpa using hk
         simp only [this]
         cases hfd : findDisc i S.variants with
@@ -82,16 +84,22 @@ theorem enum_write_read (S : Schema) (v : Val) (p : Prim) (h : writeEnum S v = .
         | some _ => simp
       · rename_i n
         obtain ⟨hk, hf⟩ := hv
-        simp only [readEnum]
+        simp only [readEnumPrim]
         cases hkind : S.kind <;> simp [hkind] at hk ⊢ <;>
           (cases hfn : findName n S.variants with
            | some _ => simp
            | none => simp [hfn] at hf; simp [hf])
     | _ => simp [enumValid] at hv
 
-theorem enum_read_write (S : Schema) (p : Prim) (v : Val) (h : readEnum S p = .ok v) :
+theorem enum_write_read (env : Env) (S : Schema) (v : Val) (p : Prim) (h : writeEnum S v = .ok p) :
+    readEnum env S p = .ok v ∧ v = .leaf p := by
+  obtain ⟨h1, h2, h3⟩ := enum_write_readPrim S v p h
+  refine ⟨?_, h2⟩
+  cases p <;> simp [Prim.isRef] at h3 <;> simpa [readEnum, resolve1, resolveP] using h1
+
+theorem enum_read_write (S : Schema) (p : Prim) (v : Val) (h : readEnumPrim S p = .ok v) :
     writeEnum S v = .ok p := by
-  simp only [readEnum] at h
+  simp only [readEnumPrim] at h
   have nameCase : ∀ n, S.kind ≠ .intEnum →
       (match findName n S.variants with
         | some _ => (.ok (.leaf (.name n)) : R Val)
